@@ -519,14 +519,14 @@ Qed.
    argument of the weighted resultant  sum_i exp(lw_i) e^{j a_i} *)
 Lemma mean_circular ps lw r : (lin <= r < lin + circ)%nat ->
   nth r (meanR ps lw) 0 =
-  if Nat.eqb (length ps) 1 then nth r (nth 0 ps []) 0
+  if Nat.eqb (length ps) 1 then atan2 (sin (nth r (nth 0 ps []) 0)) (cos (nth r (nth 0 ps []) 0))
   else atan2 (rdot (map sin (prow ROps r ps)) (map exp lw)) (rdot (map cos (prow ROps r ps)) (map exp lw)).
 Proof.
   intros H. unfold mean. rewrite app_nth2 by (rewrite map_length, seq_length; lia).
   rewrite map_length, seq_length. unfold dir_mean.
   destruct (Nat.eqb_spec (length ps) 1) as [E|E]; rewrite map_map, nth_map_seq by lia;
     replace (lin + (r - lin))%nat with r by lia.
-  - destruct ps as [|p [|q ps]]; try discriminate E. reflexivity.
+  - destruct ps as [|p [|q ps]]; try discriminate E. cbn [prow map nth]. rewrite wrap_R. rops. now rewrite Rplus_0_r.
   - apply mean_row_R.
 Qed.
 End RealProofs.
@@ -837,7 +837,7 @@ Lemma windowed_convex v s st ps lw plw lik Tm : est_inv ROps st ->
   (v = Wsimple -> forall i, (i < n)%nat -> nth i W 0 = / INR n) /\
   (forall k, (k < lin)%nat -> nth k (snd r) 0 = rdot (prow ROps k H) W) /\
   (forall k, (lin <= k < lin + circ)%nat ->
-     nth k (snd r) 0 = if Nat.eqb n 1 then nth k (nth 0 H []) 0
+     nth k (snd r) 0 = if Nat.eqb n 1 then atan2 (sin (nth k (nth 0 H []) 0)) (cos (nth k (nth 0 H []) 0))
                        else atan2 (rdot (map sin (prow ROps k H)) W) (rdot (map cos (prow ROps k H)) W)).
 Proof.
   intros Hi e r H n W.
@@ -938,7 +938,7 @@ Lemma extract_windowed_rows lin circ (ops : list (op ROps)) (o : op ROps) v e :
   (v = Wsimple -> forall i, (i < n)%nat -> nth i W 0 = / INR n) /\
   (forall k, (k < lin)%nat -> nth k (snd (snd r)) 0 = rdot (prow ROps k H) W) /\
   (forall k, (lin <= k < lin + circ)%nat ->
-     nth k (snd (snd r)) 0 = if Nat.eqb n 1 then nth k (nth 0 H []) 0
+     nth k (snd (snd r)) 0 = if Nat.eqb n 1 then atan2 (sin (nth k (nth 0 H []) 0)) (cos (nth k (nth 0 H []) 0))
                              else atan2 (rdot (map sin (prow ROps k H)) W) (rdot (map cos (prow ROps k H)) W)).
 Proof.
   intros st Ho Hv He r H n W.
@@ -1016,19 +1016,16 @@ Proof.
   rewrite atan2_scale by exact Hw. apply atan2_sin_cos.
 Qed.
 
-(* circular rows of mean: in (-PI, PI] unless there is exactly one particle, in which case the particle's
-   own angle is returned, which is congruent modulo 2 PI to what the general formula gives *)
+(* circular rows of mean (HEAD, after dee9c81): ALWAYS in (-PI, PI]; with exactly one particle the result is
+   the principal value of the particle's angle (congruent to it modulo 2 PI) *)
 Lemma mean_circular_on_circle lin circ ps lw r : (lin <= r < lin + circ)%nat ->
   let x := nth r (mean ROps lin circ ps lw) 0 in
-  (length ps <> 1%nat -> in_range x) /\
-  (forall p l, ps = [p] -> lw = [l] ->
-     x = nth r p 0 /\
-     cong2pi x (atan2 (rdot (map sin (prow ROps r ps)) (map exp lw)) (rdot (map cos (prow ROps r ps)) (map exp lw)))).
+  in_range x /\
+  (forall p, ps = [p] -> x = atan2 (sin (nth r p 0)) (cos (nth r p 0)) /\ cong2pi (nth r p 0) x).
 Proof.
   intros Hr x. unfold x. rewrite (mean_circular lin circ ps lw r Hr). split.
-  - intros Hn. destruct (Nat.eqb_spec (length ps) 1); [contradiction|]. apply atan2_range.
-  - intros p l -> ->. cbn [length Nat.eqb nth]. split; [reflexivity|].
-    unfold prow. cbn [map]. apply single_angle_cong. apply exp_pos.
+  - destruct (Nat.eqb (length ps) 1); apply atan2_range.
+  - intros p ->. cbn [length Nat.eqb nth]. split; [reflexivity | apply atan2_sin_cos].
 Qed.
 
 (* a coordinate that is the same for every particle is returned unchanged (normalised weights) *)
@@ -1043,8 +1040,8 @@ Proof.
   lra.
 Qed.
 
-(* windowed circular output: in (-PI, PI] when at least two estimates are stored; with exactly one stored
-   estimate it is that estimate's angle (congruent to its directional mean, not wrapped) *)
+(* windowed circular output: ALWAYS in (-PI, PI]; with exactly one stored estimate it is the principal value
+   of that estimate's angle *)
 Lemma windowed_circular_on_circle lin circ (ops : list (op ROps)) (o : op ROps) v e :
   let st := run ROps lin circ (est_init ROps) ops in
   match o with OExtract2 _ _ | OExtract5 _ _ _ _ _ => True | _ => False end ->
@@ -1052,19 +1049,18 @@ Lemma windowed_circular_on_circle lin circ (ops : list (op ROps)) (o : op ROps) 
   let r := step ROps lin circ st o in
   let n := length (buf (hb (fst r))) in
   forall k, (lin <= k < lin + circ)%nat ->
-    (n <> 1%nat -> in_range (nth k (snd (snd r)) 0)) /\
-    (n = 1%nat -> nth k (snd (snd r)) 0 = nth k e 0 /\
-                  cong2pi (nth k (snd (snd r)) 0)
-                          (atan2 (rdot (map sin [nth k e 0]) [1]) (rdot (map cos [nth k e 0]) [1]))).
+    in_range (nth k (snd (snd r)) 0) /\
+    (n = 1%nat -> nth k (snd (snd r)) 0 = atan2 (sin (nth k e 0)) (cos (nth k e 0)) /\
+                  cong2pi (nth k e 0) (nth k (snd (snd r)) 0)).
 Proof.
   intros st Ho Hv He r n k Hk.
   destruct (extract_windowed_rows lin circ ops o v e Ho Hv He) as (_ & HH & _ & _ & _ & _ & _ & Hc).
   fold st in HH, Hc. fold r in HH, Hc. fold n in Hc. rewrite (Hc k Hk). split.
-  - intros Hn. destruct (Nat.eqb_spec n 1); [contradiction|]. apply atan2_range.
+  - destruct (Nat.eqb n 1); apply atan2_range.
   - intros Hn. rewrite Hn. cbn [Nat.eqb].
     assert (E : nth 0 (buf (hb (fst r))) [] = e).
     { rewrite HH. destruct (window (hb st)) eqn:Ew.
       - exfalso. pose proof (proj1 (reachable_inv ROps lin circ ops)) as [_ [Hw _]]. fold st in Hw. lia.
       - reflexivity. }
-    rewrite E. split; [reflexivity|]. apply single_angle_cong. lra.
+    rewrite E. split; [reflexivity | apply atan2_sin_cos].
 Qed.
